@@ -201,6 +201,11 @@ class RunEnv:
                 xp=sx,
             )
             self.flow.on_draw = self._assume_inside
+        pt = None
+        if sampler_name == "EmceeSMC" and "preconditioning_transform" in kw:
+            # NumpySMCSampler re-instantiates the transform on numpy; the harness keeps
+            # the same transform class and settings on the symbolic namespace instead
+            pt = kw.pop("preconditioning_transform")
         self.sampler = S(
             log_likelihood=self.target.log_likelihood,
             log_prior=self.target.log_prior,
@@ -210,6 +215,8 @@ class RunEnv:
             parameters=params,
             **kw,
         )
+        if pt is not None:
+            self.sampler.preconditioning_transform = pt
         if sampler_name == "EmceeSMC":
             self.sampler.rng = self.rng
         self.sampler_name = sampler_name
